@@ -84,3 +84,28 @@ def make_rig(cfg, transport='udp', fill=None, T=1, R=0, ka=False, ctx=None, keep
         for name in cfg['refused']:
             dev.refused += DT_OPTIONAL[name]
     return Rig(fam, dev, transport, T, R, ka, ctx, keep_world=keep_world)
+
+
+def neighbour_for(cfg):
+    """A configuration of the SAME family but another model class / firmware generation (for a second object that lives
+    in the same process)."""
+    fam = cfg['family']
+    if fam == 'ET':
+        small = cfg['power'] < 15000 and 'ETT' not in cfg['tag']
+        return dict(family='ET', tag='ETT' if small else 'ETU', power=25000 if small else 3000, refused=() if small else ('eco_v2', 'peak_shaving'),
+                    battery_mode=0 if small else 2)
+    if fam == 'DT':
+        single = classes_of(serial_for(cfg['tag'])) & {'single'}
+        return dict(family='DT', tag='DTU' if single else 'DSN', power=10000 if single else 3000, refused=(), battery_mode=0)
+    return dict(family='ES', tag='ESU', power=5000, refused=(), battery_mode=0,
+                firmware=b'1414E' if cfg.get('firmware', b'1414E') != b'1414E' else b'2222E')
+
+
+def configure_neighbour(cfg, polls=True):
+    """Create, detect and use a neighbour object (own device model, own loop) without resetting the process state."""
+    r2 = make_rig(neighbour_for(cfg), 'udp', fill=lambda a: (a * 17 + 5) % 2000, keep_world=True)
+    r2.call(r2.inv.read_device_info)
+    if polls:
+        r2.call(r2.inv.read_runtime_data)
+        r2.call(r2.inv.read_settings_data)
+    return r2
